@@ -375,7 +375,10 @@ class Gen:
 
     def g_replace(self):
         r = self.r
-        s = self.pick(pred=lambda s: s.kind != "trunc" and s.u is None and s.cls not in IDENT and s.cls != "LSEMGaussianConditional")
+        ok = lambda s: s.kind != "trunc" and s.u is None and s.cls not in IDENT and s.cls != "LSEMGaussianConditional"
+        # prefer objects whose lazy caches are already filled: a functional update must not carry them over
+        s = (self.pick(pred=lambda s: ok(s) and s.kind == "measure" and s.obj.__dict__.get("lnZ") is not None)
+             if r.coin(0.5) else None) or self.pick(pred=ok)
         if s is None:
             return None
         o = s.obj
